@@ -358,7 +358,7 @@ class Executor:
                         return z3.Extract(tb - 1, 0, v)
                     src_ty = None
                     return z3.ZeroExt(tb - fb, v)  # source signedness: only unsigned widenings occur in the analysed set
-                if kind in ("PointerCoercion", "Transmute", "PtrToPtr", "PointerExposeAddress"):
+                if kind in ("PointerCoercion", "Transmute", "PtrToPtr", "PointerExposeAddress", "Subtype"):
                     return v
                 if kind == "IntToInt" and z3.is_bool(v) and tgt in INT_BITS:
                     return z3.If(v, z3.BitVecVal(1, INT_BITS[tgt]), z3.BitVecVal(0, INT_BITS[tgt]))
